@@ -56,9 +56,12 @@ LEVEL = 'model_checking'
 T0 = time.time()
 # wall clock plan (seconds after start): the replay stops taking new cases at REPLAY_END (but always gets REPLAY_MIN),
 # so that only the coverage -- never a verdict -- depends on the load of the machine
-PLAN = dict(quick=dict(nproc=5, ntlc=5, replay_end=60, replay_min=14, ntab=4),
-            thorough=dict(nproc=10, ntlc=7, replay_end=600, replay_min=150, ntab=6))
+PLAN = dict(quick=dict(nproc=5, ntlc=9, replay_end=60, replay_min=14, ntab=4),
+            thorough=dict(nproc=10, ntlc=8, replay_end=600, replay_min=150, ntab=6))
 WORKROOT = os.path.join(tlc.WORK, 'c12')
+
+# runs of a few seconds: C1 compiler only, few GC / compiler threads (many JVMs run side by side)
+LEAN_JVM = dict(JAVA_TOOL_OPTIONS='-XX:TieredStopAtLevel=1 -XX:ParallelGCThreads=2 -XX:CICompilerCount=1')
 
 MERGE_ACTIONS = ['AddSet', 'Start', 'MergeStep', 'StartFinish', 'Finish', 'Done']
 STRUCT_OPS = ['dim', 'ravel', 'discont', 'legendre', 'rem', 'mask', 'prune', 'part']
@@ -177,12 +180,14 @@ def _run_job(item):
     kw = dict(kw)
     cfg = kw.pop('cfg', None)
     kw.setdefault('timeout', 1500)
+    kw.setdefault('env', LEAN_JVM if _STATE.get('tier') == 'quick' or fam == 'mutant' else None)
     res = tlc.run(module, cfg, tag='c12-' + name, workers=2, deadlock=False, expect_violation=(fam == 'mutant'), **kw)
     return name, res
 
 
 def generate(rep, jobs):
     """run the TLC design jobs (a few at a time); -> emitted states per family"""
+    _STATE['tier'] = rep.tier
     with concurrent.futures.ThreadPoolExecutor(max_workers=PLAN[rep.tier]['ntlc']) as pool:
         results = dict(pool.map(_run_job, jobs.items()))
     rep.lap('tlc design runs')
@@ -235,7 +240,7 @@ def _work(task):
     import warnings
     from . import c12_replay as R
     warnings.filterwarnings('ignore', message='inexact integration')   # the gauss points only serve as interior points
-    fam, cases = task
+    fam, cases, core = task
     fails = []
     tables = []
     states = []
@@ -245,7 +250,7 @@ def _work(task):
     seed = _STATE['seed']
     with treelog.set(treelog.FilterLog(treelog.StdoutLog(), minlevel=treelog.proto.Level.error)):
         for case in cases:
-            if time.time() > _STATE['deadline']:
+            if not core and time.time() > _STATE['deadline']:
                 skipped += 1
                 continue
             try:
@@ -332,7 +337,10 @@ def replay(rep, cases, preds, budget):
     tasks = []
     chunk = dict(struct=10, nodal=16, hier=10, multi=10, merge=400)
     # interleave the families so that a cut by the deadline hits all of them alike
-    per = {fam: [(fam, cs[i:i + chunk[fam]]) for i in range(0, len(cs), chunk[fam])] for fam, cs in cases.items()}
+    # the first chunks of every family (the cases are stratified: every kind of step / basis occurs early) are replayed
+    # whatever the clock says; the deadline only cuts the rest
+    ncore = dict(struct=4, nodal=2, hier=2, multi=1, merge=1) if rep.tier == 'quick' else dict(struct=40, nodal=12, hier=12, multi=6, merge=10)
+    per = {fam: [(fam, cs[i:i + chunk[fam]], i // chunk[fam] < ncore[fam]) for i in range(0, len(cs), chunk[fam])] for fam, cs in cases.items()}
     tasks += per.pop('merge')        # cheap: first
     while any(per.values()):
         for fam in list(per):
@@ -346,7 +354,7 @@ def replay(rep, cases, preds, budget):
     tables = []
     skipped = collections.Counter()
     replayed = collections.Counter()
-    for (fam, cs), out in zip(tasks, outs):
+    for (fam, cs, core), out in zip(tasks, outs):
         if 'harness_error' in out:
             raise RuntimeError(out['harness_error'])
         for key, what, data in out['fails']:
@@ -384,7 +392,8 @@ def judge_tables(rep, tables):
         path = os.path.join(WORKROOT, 'tables{}.json'.format(c))
         with open(path, 'w') as f:
             json.dump([{k: v for k, v in recs[i].items() if k != 'key'} for i in parts[c]], f)
-        return tlc.run('BasisTables', 'BasisTables.cfg', tag='c12-tables{}'.format(c), workers=1, env=dict(VF_TABLE=path), deadlock=False, timeout=1500, heap='4g')
+        return tlc.run('BasisTables', 'BasisTables.cfg', tag='c12-tables{}'.format(c), workers=1, env=dict(LEAN_JVM if rep.tier == 'quick' else {}, VF_TABLE=path),
+                       deadlock=False, timeout=1500, heap='4g')
     with concurrent.futures.ThreadPoolExecutor(max_workers=nchunk) as pool:
         results = list(pool.map(judge, range(nchunk)))
     verdicts = {}
